@@ -75,6 +75,7 @@ struct Ctx {
     std::map<std::string, int> samples_per_phase;
     std::map<std::string, long> viol_written;
     long viol_total = 0;
+    long viol_cap = 25;          // stored example records per (clause, classes) and worker; counters are always exact
     unsigned check_ctr = 0;
 
     static void on_alarm(int) {
@@ -184,7 +185,7 @@ struct Ctx {
         viol_total++;
         std::string key = clause; for (auto &c : cls_) key += "|" + c;
         cnt["viol:" + key]++;
-        if (viol_written[key]++ >= 25 && only < 0) return;
+        if (viol_written[key]++ >= viol_cap && only < 0) return;
         std::string cl = "[";
         for (size_t i = 0; i < cls_.size(); i++) cl += (i ? ",\"" : "\"") + jesc(cls_[i]) + "\"";
         cl += "]";
